@@ -74,7 +74,7 @@ PROPS = {
         level='proof',
         bounded=['c20.py'],
         lemmas=['M1 simulation (DESIGN 9): every operation refines its list+index model operation and preserves the '
-                'representation invariant, hence every finite history does (induction on length; not mechanised)'],
+                'representation invariant, hence every finite history does (induction on length; mechanised: lemmas/Lemmas.lean M1_simulation)'],
         trusted_base=['representation map of utils.Buffer onto <Q,i,m> (contracts/utils_c.py BufferRep): '
                       '__queue == Q[:m] checked at every store, __iterator yields Q[m], constructor defaults for '
                       '__join/__init/__empty'],
@@ -91,7 +91,7 @@ PROPS = {
         level='proof',
         bounded=['c19.py'],
         lemmas=['M4 (DESIGN 9): increasing, pairwise disjoint slices of S whose gaps contain only Ignored/Invalid characters '
-                'concatenate to S with exactly those characters removed (induction on the number of tokens; not mechanised)',
+                'concatenate to S with exactly those characters removed (induction on the number of tokens; mechanised for sources without such characters: lemmas/Lemmas.lean M4_partition)',
                 'L-len: jointext over one-character items has as many characters as items (carried as the loop invariant '
                 'acc-len of every accumulating tokenizer, so it is proved, not assumed)'],
         trusted_base=['representation map of utils.Buffer (see C20)',
@@ -241,7 +241,7 @@ PROPS = {
                                                                            'data.TexEnv.__str__'),
         level='other', bounded=['c18.py'],
         lemmas=['M1 simulation: every TexArgs method refines the corresponding list operation on the view `items`, so every '
-                'finite history does (induction on length, not mechanised)'],
+                'finite history does (induction on length; mechanised: lemmas/Lemmas.lean M1_simulation)'],
         trusted_base=['the bookkeeping list TexArgs.all is not modelled (opaque; its lookups are assumed to find their '
                       'argument): exceptions raised through it are covered by the bounded exploration only',
                       'list.__init__/insert/remove/pop/reverse/clear/__getitem__ of the base class follow the language reference'],
@@ -257,11 +257,11 @@ PROPS = {
                                     'data.TexNode.children', 'data.TexExpr.all', 'data.TexExpr.contents', 'data.TexExpr.children')
         or c.key == 'data.TexNode.__init__[wrap]',
         level='proof', bounded=['tree.py'],
-        lemmas=['M5 (definition + induction on the tree, not mechanised): DESC(n), the sequence defined by '
+        lemmas=['M5 (mechanised: lemmas/Lemmas.lean M5_desc_perm / M5): DESC(n), the sequence defined by '
                 'DESC(n) = wrap(contents(n)) ++ concat(DESC(c) for c in children(n)), enumerates every node below n in the '
                 'environment bodies, list items, math regions, brace groups and argument groups exactly once (trees are finite and '
                 'share no sub-trees)',
-                'L-filter / L-map (induction over the fold, not mechanised): an element of a filter fold satisfies its predicate; a map '
+                'L-filter / L-map (mechanised: lemmas/Lemmas.lean L_filter, L_filter_sublist, L_map_length, L_map_get): an element of a filter fold satisfies its predicate; a map '
                 'fold keeps the length and is pointwise',
                 'L-name (character level): a non-empty string of ASCII letters and * contains no brace/bracket and does not start '
                 'with a delimiter literal'],
@@ -301,7 +301,7 @@ PROPS = {
         select=lambda c: c.qual.startswith('data.TexExpr.') or c.qual.startswith('data.TexArgs.') or c.qual in ('data.TexCmd.__str__', 'data.TexEnv.__str__'),
         level='other', bounded=['edits.py'],
         lemmas=['M3 splice (DESIGN 9): replacing the content list of one node changes the serialisation of the root exactly at '
-                'that node (ser is a homomorphic fold; structural induction, not mechanised)'],
+                'that node (ser is a homomorphic fold; structural induction; mechanised: lemmas/Lemmas.lean M3_splice)'],
         assumptions=['TexNode.delete/replace/replace_with/remove/insert/append (the wrappers that locate the container) are not '
                      'under contract; they are covered by the bounded edit sweep against the reference model',
                      'open finding D9: lookups by textual equality edit the first textual twin'],
@@ -320,7 +320,7 @@ PROPS = {
     'C15': dict(
         select=lambda c: c.qual.startswith('data.TexExpr.') or c.qual.startswith('data.TexArgs.') or c.qual in ('data.TexCmd.__str__', 'data.TexEnv.__str__'),
         level='other', bounded=['edits.py'],
-        lemmas=['M1 simulation (DESIGN 9) over the per-operation contracts'],
+        lemmas=['M1 simulation (DESIGN 9; lemmas/Lemmas.lean M1_simulation) over the per-operation contracts'],
         assumptions=['TexNode-level wrappers and the navigation/search views are not under contract (bounded)',
                      'open finding D9'],
         explanation='per-operation list contracts; histories of 2..5 edits on generated documents against the reference model '
